@@ -2,6 +2,7 @@
 REPO ?= /repo
 SAN  ?= asan
 BUILD ?= build
+SIM  ?= sim
 B    := $(BUILD)/$(SAN)
 CXX  := g++
 ifeq ($(SAN),asan)
@@ -23,8 +24,8 @@ LDFLAGS := $(SANFLAGS) -L/usr/lib/x86_64-linux-gnu/hdf5/serial \
 
 NIXSRC := $(shell find $(REPO)/src $(REPO)/backend/hdf5 -name '*.cpp' | sort)
 NIXOBJ := $(patsubst $(REPO)/%.cpp,$(B)/nix/%.o,$(NIXSRC))
-SIMSRC := $(sort $(wildcard sim/*.cpp))
-SIMOBJ := $(patsubst sim/%.cpp,$(B)/sim/%.o,$(SIMSRC))
+SIMSRC := $(sort $(wildcard $(SIM)/*.cpp))
+SIMOBJ := $(patsubst $(SIM)/%.cpp,$(B)/sim/%.o,$(SIMSRC))
 
 all: $(B)/nixsim
 
@@ -40,9 +41,9 @@ $(B)/nix/%.o: $(REPO)/%.cpp $(B)/gen/nix/nixversion.hpp
 	@mkdir -p $(dir $@)
 	$(CXX) $(CXXFLAGS) -MMD -MP -c $< -o $@
 
-$(B)/sim/%.o: sim/%.cpp $(B)/gen/nix/nixversion.hpp
+$(B)/sim/%.o: $(SIM)/%.cpp $(B)/gen/nix/nixversion.hpp
 	@mkdir -p $(dir $@)
-	$(CXX) $(CXXFLAGS) -Isim -MMD -MP -c $< -o $@
+	$(CXX) $(CXXFLAGS) -I$(SIM) -MMD -MP -c $< -o $@
 
 $(B)/nixsim: $(NIXOBJ) $(SIMOBJ)
 	$(CXX) -o $@ $(NIXOBJ) $(SIMOBJ) $(LDFLAGS)
